@@ -75,6 +75,11 @@ class Translator(object):
         self.flags = flags
         self.tree = sre_parse.parse(pattern, flags)
         self.flags = self.tree.state.flags | flags
+        unhandled = self.flags & (re.IGNORECASE | re.VERBOSE | re.LOCALE)
+        if unhandled:
+            raise Unsupported('regular expression flags %r are outside the '
+                              'translated fragment' % (re.RegexFlag(
+                                  unhandled),))
         self.groupindex = dict(self.tree.state.groupdict)
         self.ngroups = self.tree.state.groups - 1
         self.dropped = []   # look-arounds / anchors dropped (over-approx)
